@@ -34,6 +34,8 @@ def c03_monitor(spec, rec, cfg, user_steps):
     # node-level: gap-free sequence numbers, no overlap
     for n in names:
         r = rec[n]
+        for d in r.get("payload_corrupt", [])[:1]:
+            out.append(("window_payload", f"node {n}: {d}: the window entry is not one message"))
         k = nlim(n)
         if r["seq"][:k] != list(range(k)):
             out.append(("node_seq", f"node {n}: step sequence numbers are not 0..{k-1} without gaps: {r['seq'][:min(k, 12)]}"))
